@@ -14,9 +14,9 @@ import (
 type draft struct {
 	kind   string
 	tx     *common.Transaction
-	ins    []*uinfo                                            // per input: the spent output (nil for special / unknown)
-	maps   func(h crypto.Hash) []map[uint16]*crypto.Signature  // overrides the default per-input signing
-	noSigs bool                                                // node remove: no signature maps at all
+	ins    []*uinfo                                           // per input: the spent output (nil for special / unknown)
+	maps   func(h crypto.Hash) []map[uint16]*crypto.Signature // overrides the default per-input signing
+	noSigs bool                                               // node remove: no signature maps at all
 }
 
 var boundaryExtra = []int{0, 1, 31, 32, 33, 63, 64, 65, 95, 96, 97, 128, 129, 160, 161, 255, 256, 257}
